@@ -131,6 +131,16 @@ pub trait ErasedIter {
     fn by_ref_collect(&mut self) -> Result<usize, IVPError>;
     /// `for item in it.by_ref().take(n) { cb(item) }`
     fn take_burst(&mut self, n: usize, cb: &mut dyn FnMut(Item));
+    /// `it.nth(0)`
+    fn nth0(&mut self) -> Option<Item>;
+    /// `it.by_ref().fold((), |(), item| cb(item))`
+    fn fold_all(&mut self, cb: &mut dyn FnMut(Item));
+    /// `it.nth(m)`
+    fn nth_m(&mut self, m: usize) -> Option<Item>;
+    /// `it.count()`
+    fn count_all(self: Box<Self>) -> usize;
+    /// `it.last()`
+    fn last_item(self: Box<Self>) -> Option<Item>;
 }
 
 fn conv<N: Scalar, D: Dim>(r: Result<(f64, BVector<N, D>), IVPError>) -> Item
@@ -163,6 +173,21 @@ where
         for item in self.by_ref().take(n) {
             cb(conv::<T::Field, D>(item));
         }
+    }
+    fn nth0(&mut self) -> Option<Item> {
+        self.nth(0).map(conv::<T::Field, D>)
+    }
+    fn fold_all(&mut self, cb: &mut dyn FnMut(Item)) {
+        self.by_ref().fold((), |(), item| cb(conv::<T::Field, D>(item)))
+    }
+    fn nth_m(&mut self, m: usize) -> Option<Item> {
+        self.nth(m).map(conv::<T::Field, D>)
+    }
+    fn count_all(self: Box<Self>) -> usize {
+        (*self).count()
+    }
+    fn last_item(self: Box<Self>) -> Option<Item> {
+        (*self).last().map(conv::<T::Field, D>)
     }
 }
 
